@@ -17,4 +17,4 @@ def run(ctx):
     ctx.assumptions += ["the saturation-ordering clause is exercised through C15 (no eviction livelock) rather than stated per statement: "
                         "TLC's 32-bit integers cannot cross-multiply the float ratios without losing the precision the comparison needs"]
     n = 400 if ctx.quick else 10000
-    st_cluster.run_stage(ctx, PREFIXES, [("full", n // 2), ("closed", n // 4), ("mixed", n // 4)], nontrivial_fn=nontrivial)
+    st_cluster.run_stage(ctx, PREFIXES, [("full", n // 4), ("closed", n // 8), ("mixed", n // 8), ("reclaim2", n // 2)], nontrivial_fn=nontrivial)
